@@ -114,6 +114,19 @@ CHECKS.update({
             "DESIGN.md §4 C05"),
 })
 
+CHECKS.update({
+    "C06": ("exploration", "E3",
+            "bounded-exhaustive enumeration of store histories x queries against the real in-memory and disk history providers, compared with a list-filter reference",
+            "Every history of <= 3 (quick) / <= 4 (thorough) stored messages over templates with colliding 32-bit key prefixes, several messages per second, expired and live ttls, small and 30 KiB payloads is stored in fresh real InMemory and SSD providers; every derived query (exact/shorter/longer/wildcard filters, other contract, 5 windows, limits 0..10^6, continuation from every returned id) is compared with the reference (same contract, level-wise prefix, window, not expired, newest first within the size cap, order, no id on two pages).",
+            "behaviour at an expiry instant is not explored; the 10^6 limit is sampled sparsely (it preallocates 80 MB per query).",
+            "DESIGN.md §4 C06"),
+    "C15": ("fault_enumeration", "E4",
+            "exhaustive enumeration of crash points of a fixed store history on the real disk store: after every acknowledgement (close / exit / SIGKILL), at every file-system syscall ordinal (strace injection per thread + an own ptrace tracer per process), and 3-cycle crash/restart patterns; verification in a fresh process",
+            "A child process stores 4 messages (two channels, one retained, one 30 KiB) acknowledging each; it is stopped cleanly, by exit or by SIGKILL after each acknowledgement, killed on entry of the N-th call of each of 18 file-system syscalls (per thread via strace, per process via a ptrace tracer) in a fresh and a restarted directory, and run through 216 three-cycle crash/restart patterns; a fresh process must reopen the store and find every acknowledged message with identical id, channel, payload and ttl, and nothing that was never stored.",
+            "kill = process death (page cache survives), power loss out of scope; instants between syscalls (stores into mmap'd files) are not enumerated; quick caps the syscall ordinals (exhaustive:false by design).",
+            "DESIGN.md §4 C15"),
+})
+
 NOT_YET = {}
 
 
